@@ -400,7 +400,7 @@ where
 pub fn last_method_path(i: usize) -> String {
     let (pkg, name, ms) = POOL[i];
     let m = ms.last().map(|x| x.0).unwrap_or("");
-    if pkg.is_empty() {
+    if pkg.is_empty() || !POOL_EMIT[i] {
         format!("/{name}/{m}")
     } else {
         format!("/{pkg}.{name}/{m}")
